@@ -221,6 +221,7 @@ fn judge_cuts(fields: &[Field], big: bool, sparse: bool, loc: &mut Local) {
 }
 
 pub fn run(ctx: &Ctx) {
+    ctx.enable_trace_pass(ctx.tier.pick(20000u64, 200000u64));
     ctx.set_rule("case = (signal-type list with one value per position, byte order); for each case the exact payload, every truncation and 1/3 trailing bytes are constructed; a state is a distinct (type list, payload, order); evaluations count (case, payload variant) pairs; non-trivial = all strings are valid UTF-8 (arguments are expected)");
     ctx.assume("fixed-point signal types are only checked for no-panic (c13.fixed_point family and C03): the statement lists bool, integers, floats, strings and raw data");
     let alpha = field_alphabet(ctx.tier);
